@@ -970,7 +970,7 @@ class IMAPClientCommand:
           Extended: LIST [SP "(" select-opts ")"] SP reference
                     SP (list-mailbox / "(" patterns ")") [SP RETURN ...]
 
-        Sets: mailbox_name, list_mailbox, list_select_opts,
+        Sets: mailbox_name, list_reference, list_mailbox, list_select_opts,
               list_return_opts, list_patterns, list_status_atts
         """
         self.list_select_opts: set[ListSelectOpt] = set()
@@ -978,6 +978,7 @@ class IMAPClientCommand:
         self.list_patterns: list[str] = []
         self.list_status_atts: list[StatusAtt] = []
         self.list_mailbox: str = ""
+        self.list_reference: str = ""
 
         self._p_simple_string(" ")
 
@@ -989,9 +990,18 @@ class IMAPClientCommand:
             self._p_list_select_options()
             self._p_simple_string(" ")
 
-        # Reference mailbox name
+        # Reference mailbox name. It is "the name of a mailbox or a level of
+        # mailbox hierarchy" (RFC 3501 6.3.8) that the pattern is appended
+        # to, so a trailing hierarchy delimiter is significant: "foo/" + "%"
+        # lists what is inside "foo", not the names that start with "foo".
+        # `_p_mailbox` normalizes it away, `list_reference` has it.
         #
+        ref_input = self.input
         self.mailbox_name = self._p_mailbox()
+        ref_text = ref_input[: len(ref_input) - len(self.input)]
+        self.list_reference = self.mailbox_name
+        if ref_text.endswith(("/", '/"')) and self.mailbox_name not in ("", "/"):
+            self.list_reference += "/"
         self._p_simple_string(" ")
 
         # Mailbox pattern(s): either a single list-mailbox or a
